@@ -165,9 +165,20 @@ pub fn c01_legal_query(b: &Board, p: &Pos, m: Mv) -> R {
 
 pub const ALL_PROMOS: [Option<Kind>; 5] = [None, Some(Kind::Q), Some(Kind::N), Some(Kind::R), Some(Kind::B)];
 
-/// The whole 64 x 64 x 5 cube.
+/// The whole 64 x 64 x 5 cube (and, while at it, the public perft helper to depth 2).
 pub fn c01_sweep(b: &Board, p: &Pos) -> R {
     let model = p.legal_moves();
+    if !model.is_empty() {
+        let lib2 = MoveGen::movegen_perft_test(b, 2) as u64;
+        let want2 = p.perft(2);
+        if lib2 != want2 {
+            return Err(viol(
+                "C01",
+                "movegen/perft_depth_2",
+                format!("movegen_perft_test(depth 2) = {} but the model counts {} in {}", lib2, want2, p.fen()),
+            ));
+        }
+    }
     let mut set = vec![false; 64 * 64 * 5];
     for m in &model {
         let pi = ALL_PROMOS.iter().position(|x| *x == m.promo).unwrap();
@@ -613,6 +624,22 @@ pub fn c06_fen(b: &Board, p: &Pos) -> R {
             }
         }
         Err(e) => return Err(viol("C06", "roundtrip/standard_text_rejected", format!("{:?}: {:?}", std, e))),
+    }
+    // the unvalidated builder describes the same position through its getters and its index
+    let bld = BoardBuilder::from(b);
+    let ob = observe(b);
+    if col_from_lib(bld.get_side_to_move()) != ob.stm
+        || bld.get_castle_rights(Color::White) != b.castle_rights(Color::White)
+        || bld.get_castle_rights(Color::Black) != b.castle_rights(Color::Black)
+        || bld.get_en_passant() != b.en_passant()
+    {
+        return Err(viol("C06", "builder/getters_differ_from_board", format!("for {}", text)));
+    }
+    for s in ALL_SQUARES.iter() {
+        let want = ob.sq[sq_from_lib(*s) as usize].map(|(k, c)| (lib_kind(k), lib_col(c)));
+        if bld[*s] != want {
+            return Err(viol("C06", "builder/index_differs_from_board", format!("square {} of {}", s, text)));
+        }
     }
     let viab = BoardBuilder::from(b).to_string();
     if viab != text {
